@@ -368,7 +368,7 @@ theorem resolveDeep_no_fuel (g : RGraph) (m : RMode) (fuel : Nat) (active : List
       · rename_i items
         have := seqList_no_fuel (resolveDeep g m fuel active (depth + 1))
           (fun v st => ih active (depth + 1) v st (by omega) (by omega)) items
-          { st with calls := st.calls + 1 }
+          { st with calls := st.calls + 1, reach := max st.reach depth }
         split
         · rename_i e st' he
           rw [he] at this
@@ -376,14 +376,14 @@ theorem resolveDeep_no_fuel (g : RGraph) (m : RMode) (fuel : Nat) (active : List
         · simp
       · rename_i n
         split
-        · simp
+        · split <;> simp
         · split
           · split <;> simp
           · split
             · simp
             · rename_i target _
               have := ih (n :: active) (depth + 1) target
-                { st with calls := st.calls + 1, fetched := n :: st.fetched } (by omega) (by omega)
+                { st with calls := st.calls + 1, reach := depth, fetched := n :: st.fetched } (by omega) (by omega)
               split
               · rename_i e st' he
                 try simp only at he
@@ -404,7 +404,7 @@ theorem resolveDeep_inv (g : RGraph) (m : RMode) (fuel : Nat) (active : List Nat
   induction fuel generalizing active depth v st with
   | zero => simp [resolveDeep]; exact hi.1
   | succ fuel ih =>
-    have hi' : RInv active { st with calls := st.calls + 1 } := hi
+    have hi' : RInv active { st with calls := st.calls + 1, reach := max st.reach depth } := hi
     unfold resolveDeep
     simp only
     split
@@ -424,7 +424,9 @@ theorem resolveDeep_inv (g : RGraph) (m : RMode) (fuel : Nat) (active : List Nat
           simp; exact ⟨this.1, this.2 vs rfl⟩
       · rename_i n
         split
-        · simp; exact ⟨hi.1, hi'⟩
+        · split
+          · simp; exact hi.1
+          · simp; exact ⟨hi.1, hi'⟩
         · rename_i hdone
           split
           · split
@@ -441,7 +443,7 @@ theorem resolveDeep_inv (g : RGraph) (m : RMode) (fuel : Nat) (active : List Nat
             · refine ⟨hnd, ?_⟩
               intro x hx; cases hx
             · rename_i target _
-              have hi1 : RInv (n :: active) { st with calls := st.calls + 1, fetched := n :: st.fetched } := by
+              have hi1 : RInv (n :: active) { st with calls := st.calls + 1, reach := depth, fetched := n :: st.fetched } := by
                 refine ⟨hnd, ?_⟩
                 intro k hk
                 rcases List.mem_cons.mp hk with rfl | hk
@@ -515,7 +517,7 @@ theorem resolveDeep_calls (g : RGraph) (m : RMode) (fuel : Nat) (active : List N
       · simp only [cost]; omega
       · rename_i items
         have := seqList_calls g (resolveDeep g m fuel active (depth + 1))
-          (fun v st => ih active (depth + 1) v st) items { st with calls := st.calls + 1 }
+          (fun v st => ih active (depth + 1) v st) items { st with calls := st.calls + 1, reach := max st.reach depth }
         split
         · rename_i e st' he
           rw [he] at this
@@ -525,14 +527,14 @@ theorem resolveDeep_calls (g : RGraph) (m : RMode) (fuel : Nat) (active : List N
           simp only [cost, RV.size] at *; omega
       · rename_i n
         split
-        · simp only [cost]; omega
+        · split <;> (simp only [cost]; omega)
         · split
           · split <;> (simp only [cost]; omega)
           · split
             · simp only [cost, List.map_cons, List.sum_cons]; omega
             · rename_i target hl
               have := ih (n :: active) (depth + 1) target
-                { st with calls := st.calls + 1, fetched := n :: st.fetched }
+                { st with calls := st.calls + 1, reach := depth, fetched := n :: st.fetched }
               have ht : tsize g n = target.size := by simp [tsize, hl]
               split
               · rename_i e st' he
